@@ -516,7 +516,7 @@ func c08RaftOpen(b *RaftBackend, ctl *c08RaftCtl, mk func() physical.Backend) fu
 		if err := ctl.quiesce(); err != nil {
 			t.Fatal(err)
 		}
-		left, err := c08ScanStore(ctx, c08PhysStore{b})
+		left, _, err := c08ScanStore(ctx, c08PhysStore{b})
 		if err != nil {
 			t.Fatal(err)
 		}
@@ -559,12 +559,17 @@ func TestVerif_C08_CacheRaft(t *testing.T) {
 		return
 	}
 	b, ctl := c08RaftNode(t)
-	st := &c08Stack{Name: "cache-raft", MaxPlain: 3, HasCache: true, Reset: ctl.Reset, Jitter: ctl.Jitter, Truth: ctl.truth, ClassifyStale: ctl.classifyStale}
-	st.Open = c08RaftOpen(b, ctl, func() physical.Backend {
-		c := physical.NewCache(b, 0, log.NewNullLogger(), &metrics.BlackholeSink{})
+	st := &c08Stack{Name: "cache-raft", MaxPlain: 3, HasCache: true, Hooks: &c08Hooks{}, Reset: ctl.Reset, Jitter: ctl.Jitter, Truth: ctl.truth, ClassifyStale: ctl.classifyStale}
+	open := c08RaftOpen(b, ctl, func() physical.Backend {
+		c := physical.NewCache(c08UnderCache(b, st.Hooks), 0, log.NewNullLogger(), &metrics.BlackholeSink{})
 		c.SetEnabled(true)
+		st.Ground = func(ctx context.Context) (map[string]string, []string, error) {
+			c.Purge(ctx)
+			return c08ScanStore(ctx, c08PhysStore{c})
+		}
 		return c
 	})
+	st.Open = open
 	c08RunStack(t, "c08-cache-raft", st, kit.N(150, 8000), kit.N(40, 3200), nil)
 }
 
